@@ -1,6 +1,6 @@
 (* Runner.v — top of the executable model: dispatches one request line. *)
 From Coq Require Import String.
-From GS Require Import GoSem Text Dispatch DispatchHuman DispatchParsers DispatchScan DispatchRef DispatchConfig DispatchOutput DispatchOptions DispatchMeter DispatchProtocol.
+From GS Require Import GoSem Text Dispatch DispatchHuman DispatchParsers DispatchScan DispatchRef DispatchConfig DispatchOutput DispatchOptions DispatchMeter DispatchProtocol DispatchPaths.
 Open Scope N_scope.
 
 Definition first_some (l : list (option bytes)) : bytes :=
@@ -20,6 +20,7 @@ Definition dispatch (line : bytes) : bytes :=
                    dispatch_output cmd args;
                    dispatch_options cmd args;
                    dispatch_meter cmd args;
-                   dispatch_protocol cmd args ]
+                   dispatch_protocol cmd args;
+                   dispatch_paths cmd args ]
   | [] => err "empty"
   end.
